@@ -441,6 +441,9 @@ func evalCall(e *ECall, env *EvalEnv) Value {
 		if !ok {
 			evalFail("nodup on %T", a[0])
 		}
+		if len(seq) > 3000 {
+			evalFail("sequence too long for concrete evaluation")
+		}
 		for i := range seq {
 			for j := i + 1; j < len(seq); j++ {
 				if valEq(seq[i], seq[j]) {
@@ -470,6 +473,11 @@ func evalQuant(q *EQuant, env *EvalEnv, vi int) Value {
 		return asBool(eval(q.Body, env))
 	}
 	var dom []Value
+	for _, v := range env.Vars {
+		if sq, ok := v.([]Value); ok && len(sq) > 3000 {
+			evalFail("sequence too long for concrete evaluation")
+		}
+	}
 	if q.Sorts[vi] == "int" {
 		maxLen := 0
 		for _, v := range env.Vars {
